@@ -72,7 +72,10 @@ CORE = {
                    {"acts": ["ann", "sub", "bind", "lsub"], "tiny": ["ann", "sub", "bind"], "maxlen": 4, "prefix": "PrefixP1"}],
             "gen": [{"acts": ["ann"], "maxlen": 3, "prefix": "PrefixP1"},
                     {"acts": ["ann", "sub", "bind", "lsub", "lbind"], "tiny": ["ann", "sub", "bind"], "maxlen": 3, "prefix": "PrefixP1P2"},
-                    {"acts": ["connect", "ann"], "tiny": ["ann"], "maxlen": 3}],
+                    {"acts": ["connect", "ann"], "tiny": ["ann"], "maxlen": 3},
+                    # address variants (device part omitted) with client-side references in place
+                    {"acts": ["ann", "lsub", "lbind"], "tiny": ["ann"], "rich": ["ann"], "maxlen": 3, "prefix": "PrefixP1"},
+                    {"acts": ["lsub", "lbind", "sub", "bind", "entrem", "entadd"], "tiny": ["sub", "bind"], "rich": ["entrem", "entadd"], "maxlen": 3, "prefix": "PrefixP1"}],
             "sim": [{"acts": DISC + ["ann", "sub", "bind", "lsub", "lbind", "entrem", "entadd"], "tiny": ["sub", "bind"], "maxlen": 20, "num": 60}],
             "cap": 40000,
         },
@@ -81,8 +84,10 @@ CORE = {
                    {"acts": ["ann", "sub", "bind", "lsub"], "tiny": ["ann", "sub", "bind"], "maxlen": 5, "prefix": "PrefixP1P2"}],
             "gen": [{"acts": ["ann"], "rich": ["ann"], "maxlen": 3, "prefix": "PrefixP1"},
                     {"acts": ["ann", "sub", "bind", "lsub", "lbind"], "tiny": ["ann", "sub", "bind"], "maxlen": 4, "prefix": "PrefixP1P2"},
-                    {"acts": ["connect", "disconnect", "ann"], "tiny": ["ann"], "maxlen": 4}],
-            "sim": [{"acts": DISC + ["ann", "sub", "bind", "lsub", "lbind", "entrem", "entadd"], "rich": ["ann"], "maxlen": 30, "num": 1500}],
+                    {"acts": ["connect", "disconnect", "ann"], "tiny": ["ann"], "maxlen": 4},
+                    {"acts": ["ann", "lsub", "lbind", "sub", "bind"], "tiny": ["ann", "sub", "bind"], "rich": ["ann"], "maxlen": 4, "prefix": "PrefixP1"},
+                    {"acts": ["lsub", "lbind", "sub", "bind", "entrem", "entadd"], "tiny": ["sub", "bind"], "rich": ["entrem", "entadd"], "maxlen": 4, "prefix": "PrefixP1P2"}],
+            "sim": [{"acts": DISC + ["ann", "sub", "bind", "lsub", "lbind", "entrem", "entadd"], "rich": ["ann", "entrem"], "maxlen": 30, "num": 1500}],
             "cap": 400000,
         },
     },
